@@ -2,4 +2,5 @@ pub mod c03;
 pub mod c04;
 pub mod c05;
 pub mod c12;
+pub mod c13;
 pub mod common;
